@@ -122,10 +122,7 @@ def check(ck):
             isinstance(st, ast.Assign) and unparse(st.targets[0]) == rp[3] and set(rfv.conditions(w)) == {("computed_directives", "T")}
         ck.ob("resolve_field_value_or_error: directives written on the field in the query wrap the effective resolver (on_field_execution), exactly when there are some", ok, rf,
               w or rf.node, construct="query-directives:wrap", detail=str(kw))
-        cdn = rfv.maybe_call("compute_directive_nodes")
-        lps = [l for l in rfv.loops() if isinstance(l, ast.For) and unparse(l.iter) == rp[2]]
-        ok = cdn is not None and len(lps) == 1 and contains(lps[0], cdn) and [unparse(a) for a in cdn.args] == [f"{rp[0]}.schema", f"{unparse(lps[0].target)}.directives", f"{rp[0]}.variable_values"] \
-            and unparse(rfv.stmt_of(cdn)).startswith("computed_directives.extend(") and not any(isinstance(n, (ast.Break, ast.Continue, ast.Return)) for n in walk_no_nested(lps[0]))
+        ok, cdn = query_directives_collected(repo, rf)
         ck.ob("resolve_field_value_or_error: the query directives of *every* merged field node are collected, in order, with the request's variables", ok, rf, cdn or rf.node,
               construct="query-directives:collect")
         c = repo.func("tartiflette/types/helpers/get_directive_instances.py", "compute_directive_nodes")
@@ -139,10 +136,11 @@ def check(ck):
         ap = [x for x in cv.calls("append")]
         ok = len(lp) == 1 and len(ap) == 1 and contains(lp[0], ap[0]) and not any(isinstance(n, (ast.Break, ast.Continue, ast.Return)) for n in walk_no_nested(lp[0]))
         ck.ob("compute_directive_nodes: one entry per directive instance, in declaration order", ok, c, lp[0] if lp else c.node, construct="instances:one-per-node")
-        pc = [x for x in cv.calls("partial") if x.args and unparse(x.args[0]) == "coerce_arguments"]
-        ok = len(pc) == 1 and {k: unparse(v) for k, v in kwargs(pc[0]).items()} == {
+        pc, bound_kw = bound_coerce_arguments(repo, c)
+        ok = bound_kw == {
             "argument_definitions": "directive_definition.arguments", "node": unparse(lp[0].target) if lp else "?", "variable_values": f"{c.positional_params[2]} or {{}}",
             "coercer": "directive_definition.arguments_coercer"}
+        pc = [pc] if pc is not None else []
         ck.ob("compute_directive_nodes: each instance's arguments coercer is bound to that instance's node and definition", ok, c, pc[0] if pc else c.node, construct="instances:arguments")
         fd = cv.maybe_call("find_directive")
         ck.ob("compute_directive_nodes: the definition is looked up by the instance's name", fd is not None and lp and unparse(fd.args[0]) == f"{unparse(lp[0].target)}.name.value", c,
@@ -379,10 +377,8 @@ def _stage_order(ck, repo):
     ok = w is not None and arg_text(w, None, "func") == p[3] and arg_text(w, None, "directive_hook") == "'on_field_execution'" and arg_text(w, None, "directives_definition") == "computed_directives" \
         and isinstance(rv.stmt_of(w), ast.Assign) and unparse(rv.stmt_of(w).targets[0]) == p[3]
     ck.ob("resolve_field_value_or_error: query-side field directives wrap the baked (schema-side wrapped) resolver, so they are outermost", ok, r, w or r.node, construct="order:query-side")
-    ext = [c for c in rv.calls("extend") if unparse(c.func.value) == "computed_directives"]
-    lp = rv.enclosing(ext[0], (ast.For,)) if ext else None
-    ok = lp is not None and unparse(lp.iter) == p[2] and "compute_directive_nodes" in unparse(ext[0].args[0]) and f"{unparse(lp.target)}.directives" in unparse(ext[0].args[0])
-    ck.ob("resolve_field_value_or_error: query-side directives are taken from every merged field node, in order", ok, r, ext[0] if ext else r.node, construct="order:query-side-nodes")
+    ok, cdn_ = query_directives_collected(repo, r)
+    ck.ob("resolve_field_value_or_error: query-side directives are taken from every merged field node, in order", ok, r, cdn_ or r.node, construct="order:query-side-nodes")
     rc = [c for c in rv.calls() if isinstance(c.func, ast.Name) and c.func.id == p[3]]
     ok = len(rc) == 1 and w is not None and rv.cfg.can_reach(rv.cfg_node(w).id, rv.cfg_node(rc[0]).id, skip_exc=True)
     ck.ob("resolve_field_value_or_error: the wrapped resolver is the one called", ok, r, rc[0] if rc else r.node, construct="order:wrapped-called")
@@ -491,3 +487,107 @@ def _argument_hooks_on_every_value(ck, a):
               has_dirs == "F" or with_errors, a, r["last"] or a.node, construct="order:argument-every-value",
               detail=f"`return {unparse(ret)[:70]}` is reached without asking whether the argument carries directives: its on_argument_execution hooks never see this value")
     ck.count("argument_value_paths_without_hooks", n, 2)
+
+
+def query_directives_collected(repo, rf):
+    """`computed_directives` of resolve_field_value_or_error is the concatenation, over *every* merged field node in order, of
+    the computed directives of that node - either computed node by node (extend inside the loop over the field nodes) or in
+    one call over a *new* list that gathered every node's directive nodes (a node without directives contributes nothing
+    either way).  Helpers next to the function are looked through."""
+    from ..q import inlined_view
+    rfv = inlined_view(repo, rf)
+    rp = rf.positional_params
+    calls = rfv.calls("compute_directive_nodes")
+    if len(calls) != 1:
+        return False, (calls[0] if calls else None)
+    cdn = calls[0]
+    a = [unparse(x) for x in cdn.args]
+    if len(a) != 3 or a[0] != f"{rp[0]}.schema" or a[2] != f"{rp[0]}.variable_values":
+        return False, cdn
+    lps = [l for l in rfv.loops() if isinstance(l, ast.For) and unparse(l.iter) == rp[2]]
+    if len(lps) != 1 or any(isinstance(n, (ast.Break, ast.Continue, ast.Return)) for n in walk_no_nested(lps[0])):
+        return False, cdn
+    lp = lps[0]
+    item = unparse(lp.target)
+    st = rfv.stmt_of(cdn)
+    if contains(lp, cdn):
+        # node by node
+        return a[1] == f"{item}.directives" and unparse(st).startswith("computed_directives.extend(") and not set(rfv.conditions(cdn)) - set(rfv.conditions(lp)), cdn
+    # one call over a gathered list
+    gathered = a[1]
+    for _ in range(3):  # a copy of the name (`t = xs`, left by inlining a helper that returns its list)
+        al = [n for n in walk_no_nested(rfv.node) if isinstance(n, ast.Assign) and unparse(n.targets[0]) == gathered]
+        if len(al) == 1 and isinstance(al[0].value, ast.Name):
+            gathered = al[0].value.id
+        else:
+            break
+    inits = [n for n in walk_no_nested(rfv.node) if isinstance(n, ast.Assign) and unparse(n.targets[0]) == gathered]
+    fresh = len(inits) == 1 and unparse(inits[0].value) in ("[]", "list()") and rfv.dominated_by(lp, inits[0])
+    ext = [c for c in rfv.calls(["extend"]) if unparse(c.func.value) == gathered]
+    other = [c for c in rfv.calls(["append", "insert", "remove", "pop", "clear", "sort", "reverse"]) if isinstance(c.func, ast.Attribute) and unparse(c.func.value) == gathered]
+    ok = fresh and len(ext) == 1 and not other and contains(lp, ext[0]) and [unparse(x) for x in ext[0].args] == [f"{item}.directives"] and \
+        set(rfv.conditions(ext[0])) - set(rfv.conditions(lp)) <= {(f"{item}.directives", "T")} and rfv.dominated_by(cdn, lp) and \
+        isinstance(st, ast.Assign) and unparse(st.targets[0]) == "computed_directives"
+    return bool(ok), cdn
+
+
+def bound_coerce_arguments(repo, g):
+    """What compute_directive_nodes binds into each instance's `arguments_coercer`, as {keyword of coerce_arguments: expression
+    at the creation site}: from `partial(coerce_arguments, k=v, ...)`, or from a call of a module-level factory whose result
+    is a function doing nothing but `return await coerce_arguments(k=<factory parameter>, ..., ctx=<its own parameter>)` -
+    the factory's parameters are bound when it is called, once per instance.  A closure written inside the loop (which would
+    read the loop variables when it is *called*) is not accepted.  Returns (the creation call, mapping or None)."""
+    gv = FuncView(g)
+    site = None
+    for d in ast.walk(g.node):
+        if isinstance(d, ast.Dict):
+            for k, v in zip(d.keys, d.values):
+                if isinstance(k, ast.Constant) and k.value == "arguments_coercer":
+                    site = v
+        if isinstance(d, ast.keyword) and d.arg == "arguments_coercer":
+            site = d.value
+    if not isinstance(site, ast.Call):
+        return site, None
+    fn = dotted(site.func)
+    if fn == "partial" and site.args and repo.resolve_name(g.module, unparse(site.args[0])) == "tartiflette.coercers.arguments.coerce_arguments":
+        return site, {k: unparse(v) for k, v in kwargs(site).items()}
+    fac = g.module.funcs.get(fn) if fn else None
+    if fac is None or fac.parent is not None or fac.cls is not None:
+        return site, None
+    params = fac.positional_params
+    actual = {}
+    for i, a in enumerate(site.args):
+        if i < len(params):
+            actual[params[i]] = unparse(a)
+    for k in site.keywords:
+        if k.arg:
+            actual[k.arg] = unparse(k.value)
+    if set(actual) != set(params):
+        return site, None
+    # the factory: optional aliases of coerce_arguments, one nested function, `return <that function>`
+    alias = {n.targets[0].id: unparse(n.value) for n in fac.node.body if isinstance(n, ast.Assign) and isinstance(n.targets[0], ast.Name)}
+    inner = [n for n in fac.node.body if isinstance(n, (ast.FunctionDef, ast.AsyncFunctionDef))]
+    rets = [n for n in fac.node.body if isinstance(n, ast.Return)]
+    rebound = {t.id for n in ast.walk(fac.node) for t in ast.walk(n) if isinstance(t, ast.Name) and isinstance(t.ctx, ast.Store)} & set(params)
+    if len(inner) != 1 or len(rets) != 1 or unparse(rets[0].value) != inner[0].name or rebound:
+        return site, None
+    body = [b for b in inner[0].body if not (isinstance(b, ast.Expr) and isinstance(b.value, ast.Constant))]
+    if len(body) != 1 or not isinstance(body[0], ast.Return):
+        return site, None
+    call = strip_await(body[0].value)
+    if not isinstance(call, ast.Call) or call.args:
+        return site, None
+    target = unparse(call.func)
+    target = alias.get(target, target)
+    if repo.resolve_name(g.module, target) != "tartiflette.coercers.arguments.coerce_arguments":
+        return site, None
+    own = {a.arg for a in inner[0].args.args + inner[0].args.kwonlyargs}
+    out = {}
+    for k in call.keywords:
+        v = unparse(k.value)
+        if k.arg == "ctx" and v in own:
+            continue   # supplied when the hook runs, as with the partial
+        if v not in actual:
+            return site, None
+        out[k.arg] = actual[v]
+    return site, out
